@@ -4,9 +4,11 @@
 set -e
 HERE=$(cd "$(dirname "$0")" && pwd)
 ( cd /repo && cargo build --lib --offline >/dev/null 2>&1 )
-BIN=$(mktemp -d)/query_replay
-rustc --edition 2018 -O "$HERE/src/query_replay.rs" --extern sqlgrep=/repo/target/debug/libsqlgrep.rlib -L dependency=/repo/target/debug/deps -o "$BIN" 2>/dev/null
 . "$1"
+DRIVER=${DRIVER:-query_replay}
+BIN=$(mktemp -d)/$DRIVER
+rustc --edition 2018 -O "$HERE/src/$DRIVER.rs" --extern sqlgrep=/repo/target/debug/libsqlgrep.rlib -L dependency=/repo/target/debug/deps -o "$BIN" 2>/dev/null
+export JOIN_FILE_CONTENT
 "$BIN" "$TABLE" "$QUERY" "$EXPECT" "$@"
 rc=$?
 rm -rf "$(dirname "$BIN")"
